@@ -40,11 +40,12 @@ def main():
     meta["existing_suite_with_change"] = {"rc": rc1, "results": results(o1), "rc_dir": rc1d, "results_dir": results(o1d)}
     sh("mv /tmp/%s_demo.rs tests/seeded_demo.rs" % name, cwd=wt)
     # 2. demo with the change
-    rc2, o2 = sh("cargo test --offline --test seeded_demo 2>&1", cwd=wt)
+    feat = " --features dir" if "C19" in name else ""
+    rc2, o2 = sh("cargo test --offline%s --test seeded_demo 2>&1" % feat, cwd=wt)
     meta["demo_with_change"] = {"rc": rc2, "results": results(o2)}
     # 3. demo without
     sh("git stash push -- src/", cwd=wt)
-    rc3, o3 = sh("cargo test --offline --test seeded_demo 2>&1", cwd=wt)
+    rc3, o3 = sh("cargo test --offline%s --test seeded_demo 2>&1" % feat, cwd=wt)
     sh("git stash pop", cwd=wt)
     meta["demo_without_change"] = {"rc": rc3, "results": results(o3)}
     meta["confirmed"] = rc1 == 0 and rc1d == 0 and rc2 != 0 and rc3 == 0
